@@ -10,9 +10,9 @@ CLAIMED = {
    technique="Coq proof by exhaustive vm_compute sweep over translator-regenerated tables + model/implementation table correspondence",
    ref="3/C14"),
  "C01": dict(
-   text="Partial proof + C-side decision. Proved in Coq for the streaming LDPC decoder model (any matrix, size, history): the completion query is true iff all k sources are available, and every available symbol lies in the peeling closure of the received set. Not yet proved: that decoded VALUES equal the codeword (value invariant of the partial sums), the ML finish path, the Reed-Solomon algebra. For those, every generated life cycle (all three codecs, both APIs, duplicates, callbacks, with/without finish; every received subset of small codes) compares each available source symbol byte by byte with the encoded source on the compiled C, and the extracted IT model is run on the same histories and its decoded values are compared with the encoded symbols.",
-   note="Trusted: Coq kernel; ITModel.v/RSApi.v mirrors; sessions driver + python oracle. The property's first sentence is NOT a theorem yet (named _partial in Properties_C01.v).",
-   technique="Coq proof (partial: availability/completion) + extracted-model-vs-C correspondence + byte-level oracle on the C",
+   text="Proof for the LDPC streaming path + C-side decision for the rest. Proved in Coq for the streaming LDPC decoder model (any matrix, size, history, symbol type with an associative/commutative/nilpotent xor): every symbol the decoder holds after any history of codeword symbols equals the codeword's symbol at that column (value invariant of the partial sums through the recursive decoder), the completion query is true iff all k sources are available, and every available symbol lies in the peeling closure of the received set. Not yet proved: the ML finish path, the Reed-Solomon algebra. For those, every generated life cycle (all three codecs, both APIs, duplicates, callbacks, with/without finish; every received subset of small codes) compares each available source symbol byte by byte with the encoded source on the compiled C, and the extracted IT model is run on the same histories and its decoded values are compared with the encoded symbols.",
+   note="Trusted: Coq kernel; ITModel.v/RSApi.v mirrors; sessions driver + python oracle. The property's first sentence is a theorem for the LDPC streaming decoder only (ldpc_available_symbols_equal_codeword).",
+   technique="Coq proof by invariant over the recursive decoder (LDPC streaming: values, availability, completion) + extracted-model-vs-C correspondence + byte-level oracle on the C",
    ref="3/C01", cat="proof"),
  "C02": dict(
    text="Machine-checked proof (Coq) for the model of the API layer shared by both RS codecs: after ANY history of of_decode_with_new_symbol calls (any order, duplicates, any 1<=k<=n) decoding is complete iff at least k distinct ESIs were submitted; of_finish_decoding returns OK iff complete afterwards and FAILURE iff fewer than k. The algebraic half (any k rows of the systematic Vandermonde generator invertible, inversion correct) is a named hypothesis of these theorems, exercised on the compiled C by every received subset of small codes, both APIs, both codecs, m=4 and 8, and sampled k up to 200; every RS session is also replayed on the extracted API model and compared (statuses, completion, table, callback ESIs).",
